@@ -147,7 +147,8 @@ fn verif_pure_file_hash()
 
 /*  C15: "the hash of a directory changes when any contained name or content changes": for a few directory trees, every
     single-point change (rename of a file or directory at any depth, change of a file's bytes at any depth, a file added or removed
-    at any depth) gives a different directory hash; the same tree built again gives the same hash */
+    at any depth) and every such two-point change (two files trade contents; bytes move from one file to another) gives a different
+    directory hash; the same tree built again gives the same hash */
 fn make_tree(files: &Vec<(String, String)>) -> FakeSystem
 {
     let mut system = FakeSystem::new(10);
@@ -173,6 +174,7 @@ fn verif_pure_dir_hash()
     let f = |p: &str, c: &str| (p.to_string(), c.to_string());
     let trees : Vec<Vec<(String, String)>> = vec![
         vec![f("out/a.txt", "A"), f("out/b.txt", "B")],
+        vec![f("out/a.c", "int a() { return 1; }\n"), f("out/b.c", "int b() { return 2; }\nint c() { return 3; }\n"), f("out/c.h", "int a(); int b(); int c();\n")],
         vec![f("out/a.txt", "A"), f("out/sub/a.txt", "SA"), f("out/sub/c.txt", "SC")],
         vec![f("out/m.txt", "M"), f("out/sub/deep/x.txt", "X"), f("out/sub/deep/y.txt", "Y"), f("out/sub/k.txt", "K"), f("out/zub/x.txt", "X")],
     ];
@@ -196,6 +198,18 @@ fn verif_pure_dir_hash()
             { let mut v = tree.clone(); v.push((format!("{}/new.txt", dir), "N".to_string())); variants.push((format!("add {}/new.txt", dir), v)); }
             /*  rename the directory it is in (below the root) */
             if dir != "out" { let mut v = tree.clone(); let nd = format!("{}_", dir); for e in v.iter_mut() { if e.0.starts_with(&format!("{}/", dir)) { e.0 = format!("{}{}", nd, &e.0[dir.len()..]); } } variants.push((format!("rename directory {} to {}", dir, nd), v)); }
+            /*  changes at TWO places at once, with every other file of the tree: the two files trade contents; bytes move from the
+                head of one to the tail of the other (the concatenation of all contents stays what it was); the two trade names */
+            for j in 0..tree.len()
+            {
+                if j == i || tree[i].1 == tree[j].1 { continue; }
+                { let mut v = tree.clone(); let c = v[i].1.clone(); v[i].1 = v[j].1.clone(); v[j].1 = c; variants.push((format!("{} and {} trade contents", path, tree[j].0), v)); }
+                if i < j
+                {
+                    let mut v = tree.clone(); let moved : String = v[j].1.chars().take(1).collect(); v[i].1.push_str(&moved); v[j].1 = v[j].1.chars().skip(1).collect();
+                    variants.push((format!("the first byte of {} moves to the end of {}", tree[j].0, path), v));
+                }
+            }
             for (what, v) in variants.iter()
             {
                 t.case();
